@@ -53,7 +53,7 @@ package memory
 //@   ensures[top] m.sp == old(m.sp) - 1 && result == old(m.stack[m.sp-1])
 //@   ensures[wf]  wf(m)
 //
-//@ func (*Type).PushFrame [C18,C04]
+//@ func (*Type).PushFrame [C18,C04,C03]
 //@   requires wf(m)
 //@   requires[counts] 0 <= argsCnt && argsCnt <= localCnt
 //@   requires[args_present] argsCnt <= m.sp && (len(m.fp) >= 2 ==> topLE(m) <= m.sp - argsCnt)
